@@ -417,3 +417,55 @@ Definition lctor (c : bool) (kvs : list (nat * bool)) : option lss * option err 
 
 Fixpoint lrun (c : bool) (l : lss) (ops : list lop) : lss :=
   match ops with [] => l | p :: r => lrun c (fst (lstep c l p)) r end.
+
+(* ===================================================================================== *)
+(* Part C - SubmodelElementList._check_constraints (AASd-107/108/109/114/120), pure       *)
+(* ===================================================================================== *)
+(* submodel.py SubmodelElementList._generate_id_short + _check_constraints: the new element
+   against the list's attributes and the elements already contained.  An element: its concrete
+   class (id), its value_type (id; meaningful for Property/Range), its semantic_id, and whether
+   it comes with an id_short.  The list: type_value_list_element (id), for an abstract
+   type_value_list_element (SubmodelElement, DataElement, EventElement) the ids of its concrete
+   subclasses (else []), whether it is Property or Range, value_type_list_element,
+   semantic_id_list_element. *)
+Record elem : Type := mkElem { ety : nat; evt : nat; esem : option nat; ehasid : bool }.
+Record lcfg : Type := mkCfg { tle : nat; members : list nat; prop_or_range : bool;
+                              vtle : option nat; semle : option nat }.
+
+Definition type_ok (c : lcfg) (e : elem) : bool :=
+  Nat.eqb (ety e) (tle c) || existsb (Nat.eqb (ety e)) (members c).
+Definition vt_ok (c : lcfg) (e : elem) : bool :=
+  match vtle c with Some v => Nat.eqb (evt e) v | None => false end.
+
+Definition check_new (c : lcfg) (e : elem) (existing : list elem) : option err :=
+  seqs [ when (ehasid e) (Some (EAASd 120));                         (* _generate_id_short (id set hook) *)
+         when (negb (type_ok c e)) (Some (EAASd 108));
+         match semle c, esem e with
+         | Some s, Some s' => when (negb (Nat.eqb s' s)) (Some (EAASd 107))
+         | _, _ => None
+         end;
+         when (prop_or_range c && negb (vt_ok c e)) (Some (EAASd 109));
+         match esem e, semle c with
+         | Some s, None =>
+             first_some (fun x => match esem x with
+                                  | Some s' => when (negb (Nat.eqb s s')) (Some (EAASd 114))
+                                  | None => None
+                                  end) existing
+         | _, _ => None
+         end ].
+
+(* __init__: Property/Range lists need a value_type_list_element *)
+Definition cfg_check (c : lcfg) : option err :=
+  when (prop_or_range c && match vtle c with None => true | _ => false end) (Some (EAASd 109)).
+
+(* a history of single additions (add / append / insert / the items of extend, of the constructor
+   and of the value setter, one after the other); a refused element is skipped *)
+Fixpoint sml_adds (c : lcfg) (l : list elem) (es : list elem) : list elem * list (option err) :=
+  match es with
+  | [] => (l, [])
+  | e :: r =>
+      match check_new c e l with
+      | Some x => let '(l', o) := sml_adds c l r in (l', Some x :: o)
+      | None => let '(l', o) := sml_adds c (l ++ [e]) r in (l', None :: o)
+      end
+  end.
